@@ -82,7 +82,8 @@ def gen_file(ctx):
 
         src = r.choice(blocks)["m"]
         c = _names.conj(src)
-        if not c.startswith("ChargeConj(") and c != src and all(b["m"] != c for b in blocks) and L.label_ok(c, g.models):
+        if not c.startswith("ChargeConj(") and c != src and all(b["m"] != c for b in blocks) and L.label_ok(c, g.models) \
+                and not any(st["k"] == "CDecay" and st["name"] == c for st in misc):      # (one CDecay per derived name: a second one is outside every property)
             misc.append({"k": "CDecay", "name": c})
     late_defs = [g.misc("Define") for _ in range(r.choice([0, 0, 1]))]
     stmts = decgen.interleave(r, stmts + late_defs, blocks, misc)
